@@ -936,7 +936,7 @@ class BasisSimpleElectron(BasisSet):
         return mat * op_factor
 
     def copy(self, new_dof):
-        return self.__class__(new_dof)
+        return self.__class__(new_dof, self.sigmaqn)
 
 
 class BasisHalfSpin(BasisSet):
